@@ -98,6 +98,10 @@ impl EventIdGenerator {
 }
 
 fn current_millis() -> u64 {
+    #[cfg(sneldb_verif)]
+    if let Some(v) = crate::verif::id_clock_millis() {
+        return v;
+    }
     SystemTime::now()
         .duration_since(UNIX_EPOCH)
         .unwrap_or(Duration::ZERO)
